@@ -17,6 +17,7 @@ import (
 	"github.com/TheCacophonyProject/thermal-recorder/motion"
 	"github.com/TheCacophonyProject/thermal-recorder/recorder"
 	"github.com/TheCacophonyProject/window"
+	"github.com/juju/ratelimit"
 	"pgregory.net/rapid"
 	kit "verifkit"
 )
@@ -55,10 +56,29 @@ type vfThrCfg struct {
 	// ViaFile: the settings reach the throttler the way the daemon gets them - written to a config.toml
 	// ([thermal-throttler] bucket-size / min-refill) and loaded with goconfig.New + throttle.NewConfig
 	ViaFile bool `json:"via_file,omitempty"`
+	// Prior: throttlers built from the very same configuration object before the one under test, as the daemon
+	// does on every camera connection
+	Prior int `json:"prior,omitempty"`
 }
 
+// throttler builds the throttler under test the way the daemon does on its (Prior+1)-th camera connection.
+func (c vfThrCfg) throttler(base recorder.Recorder, ev ThrottledEventListener, clock ratelimit.Clock, cam cptvframe.CameraSpec) *ThrottledRecorder {
+	conf := c.conf()
+	for i := 0; i < c.Prior; i++ {
+		NewThrottledRecorderWithClock(vfNoRecorder{}, conf, c.MinPrev, nil, clock, cam)
+	}
+	return NewThrottledRecorderWithClock(base, conf, c.MinPrev, ev, clock, cam)
+}
+
+type vfNoRecorder struct{}
+
+func (vfNoRecorder) StopRecording() error                             { return nil }
+func (vfNoRecorder) StartRecording(*cptvframe.Frame, uint16) error    { return nil }
+func (vfNoRecorder) WriteFrame(*cptvframe.Frame) error                { return nil }
+func (vfNoRecorder) CheckCanRecord() error                            { return nil }
+
 func (c vfThrCfg) valid() bool {
-	return c.BucketMs >= 1000 && c.BucketMs <= 3600000 && c.MinRefillMs >= 1 && c.MinRefillMs <= 7200000 && c.MinPrev >= 1 && c.MinPrev <= 60 && c.FPS >= 1 && c.FPS <= 30
+	return c.BucketMs >= 1000 && c.BucketMs <= 3600000 && c.MinRefillMs >= 1 && c.MinRefillMs <= 7200000 && c.MinPrev >= 1 && c.MinPrev <= 60 && c.FPS >= 1 && c.FPS <= 30 && c.Prior >= 0 && c.Prior <= 50
 }
 func (c vfThrCfg) conf() *config.ThermalThrottler {
 	if c.ViaFile {
@@ -238,7 +258,7 @@ func vfRunThrottle(c vfThrCase) *vfThrRun {
 	}
 	ev := &vfEvents{base: base}
 	cam := vfCam{4, 4, c.Cfg.FPS}
-	th := NewThrottledRecorderWithClock(base, c.Cfg.conf(), c.Cfg.MinPrev, ev, clock, cam)
+	th := c.Cfg.throttler(base, ev, clock, cam)
 	run := &vfThrRun{base: base, events: ev}
 	inSession := false
 	req := func(k int, f func() error, fr, bg *cptvframe.Frame, thr uint16) error {
@@ -308,6 +328,7 @@ func vfGenThrCfg(t *rapid.T) vfThrCfg {
 	c.MinRefillMs = rapid.SampledFrom([]int64{1000, 2000, 5000, 20000, 60000, 600000, 3600000, 1500, 333}).Draw(t, "minrefill")
 	c.MinPrev = rapid.IntRange(1, 6).Draw(t, "minprev")
 	c.ViaFile = rapid.IntRange(0, 4).Draw(t, "viafile") == 0
+	c.Prior = rapid.SampledFrom([]int{0, 0, 0, 1, 2, 5}).Draw(t, "prior")
 	return c
 }
 
@@ -494,7 +515,7 @@ func vfRunComp(c vfCompCase) *kit.Result {
 	base := &vfBase{clock: clock, fail: map[int]bool{}}
 	ev := &vfEvents{base: base}
 	cam := vfCam{3, 3, c.Cfg.FPS}
-	th := NewThrottledRecorderWithClock(base, c.Cfg.conf(), c.Cfg.MinPrev, ev, clock, cam)
+	th := c.Cfg.throttler(base, ev, clock, cam)
 	w, _ := window.New("10:00", "10:00", 0, 0)
 	rc := &recorder.RecorderConfig{MinSecs: c.Min, MaxSecs: c.Max, PreviewSecs: c.Preview, Window: *w}
 	mc := &config.ThermalMotion{TempThresh: 1000, DeltaThresh: 50, CountThresh: 1, FrameCompareGap: 1, UseOneDiffOnly: true, TriggerFrames: c.Trigger}
